@@ -53,6 +53,7 @@ func (p *parser) peek() *token.Token {
 }
 
 func (p *parser) eat() *token.Token {
+	eatHook()
 	if p.idx >= len(p.toks) {
 		return lexer.EOF
 	}
